@@ -468,7 +468,7 @@ func r04_2(c *Ctx, r *Report) {
 
 func r04_3(c *Ctx, r *Report) {
 	const rule = "R04.3"
-	r.rule(rule, "Derived operations delegate with the right arguments: Subtract(o) is GetDaysBetween(o's y,m,d, own y,m,d) in that order; GetWeek / GetJulianDay / IsLeapYear pass the receiver's own fields in declaration order; Next(n, false) is NextDay(n); NextHour rebuilds the date through NextDay.")
+	r.rule(rule, "Derived operations delegate with the right arguments: Subtract(o) is GetDaysBetween(o's y,m,d, own y,m,d) in that order; GetWeek / GetJulianDay / IsLeapYear pass the receiver's own fields in declaration order; Next(n, false) is NextDay(n). (NextHour: R04.5.)")
 	for _, t := range []struct {
 		fn, callee string
 		want       []string
@@ -515,13 +515,8 @@ func r04_3(c *Ctx, r *Report) {
 		}
 		r.check(okk, rule, "calendar.(*Solar).Next(n, false) is NextDay(n)", c.fnPos(fn), "under !onlyWorkday the result is recv.NextDay(days) with days passed through unchanged")
 	}
-	if fn := c.Fn(r, rule, "calendar.(*Solar).NextHour"); fn != nil {
-		ef := c.eff.Of(fn)
-		_, viaDay := ef.Calls["calendar.(*Solar).NextDay"]
-		_, viaNew := ef.Calls["calendar.NewSolar"]
-		r.check(viaDay && viaNew, rule, "calendar.(*Solar).NextHour carries whole days through NextDay", c.fnPos(fn), "calls NextDay for the day carry and NewSolar for the result")
-	}
-	r.floor(rule, 6)
+	// (NextHour is decided completely by evaluation: R04.5)
+	r.floor(rule, 5)
 }
 
 func r04_4(c *Ctx, r *Report) {
@@ -651,7 +646,45 @@ func r04_5(c *Ctx, r *Report) {
 					return nil, false
 				}
 				ev := &evaluator{inline: inlineLibrary, leaf: leaf}
+				// the time of day may also be set on the object NextDay handed back
+				set := map[string]interface{}{}
+				ev.onStore = func(fr *evalFrame, st *ssa.Store, v interface{}, ok bool) {
+					if fa, isF := st.Addr.(*ssa.FieldAddr); isF && structName(fa.X.Type()) == "Solar" {
+						if o, okO := evalWith(fr, fa.X, leaf); okO {
+							if _, isS := o.(absStep); isS {
+								if !ok {
+									v = "?"
+								}
+								set[fieldKeyOf(fa)] = v
+							}
+						}
+					}
+				}
 				res, outcome := ev.run(fn, nil, nil, nil, nil)
+				if outcome == "return" && len(res) == 1 {
+					if st, isS := res[0].(absStep); isS {
+						got := []interface{}{int64(9000), int64(9), st.k, h0, int64(33), int64(44)}
+						for i, f := range []string{"Solar.year", "Solar.month", "Solar.day", "Solar.hour", "Solar.minute", "Solar.second"} {
+							if v, stored := set[f]; stored {
+								got[i] = v
+							}
+						}
+						as := absSolar{}
+						vals := []*int64{&as.y, &as.m, &as.d, &as.h, &as.mi, &as.s}
+						all := true
+						for i, g := range got {
+							k, isI := g.(int64)
+							if !isI {
+								all = false
+								break
+							}
+							*vals[i] = k
+						}
+						if all {
+							res[0] = as
+						}
+					}
+				}
 				n++
 				t := h0 + k
 				days := t / 24
